@@ -41,7 +41,7 @@ def cases(draw):
     origin = draw(st.sampled_from(["leaf", "leaf_noncontig", "view", "op_result"]))
     if is_float:
         constant = draw(st.sampled_from([None, True, False]))
-        gradmode = draw(st.sampled_from(["none", "backward", "seed", "base_backward"]))
+        gradmode = draw(st.sampled_from(["none", "backward", "seed", "base_backward", "view_then_base"]))
     else:
         constant = draw(st.sampled_from([None, True]))
         gradmode = "none"
@@ -111,6 +111,17 @@ def build(case):
         (base * w).sum().backward()
     elif gm == "base_backward":
         (t * 3.0).backward()
+    elif gm == "view_then_base":
+        # two epochs: a backward pass through the tensor, then (for a view) one through its base only, which gives
+        # the base a new gradient that the - now disconnected - view is not part of
+        w = (np.arange(n, dtype=np.float64).reshape(shape) + 1.5)
+        (t * w).sum().backward()
+        if origin == "view":
+            base = keep[-1]
+            w2 = np.arange(base.size, dtype=np.float64).reshape(base.shape) - 2.5
+            (base * w2).sum().backward()
+        else:
+            (t * 3.0).sum().backward()
     return t, keep
 
 
